@@ -58,8 +58,153 @@ def tables_c14(out, notes):
     else:
         raise Refuse(f"load_csv newline handling is neither newline=None nor newline='': {cells!r}")
     out.append(f"Definition load_csv_translated : bool := {coq_bool(translated)}.")
+    flags = probe_reader_flags(sheets)
+    for name in ("csv_reader_drops_empty_rows", "json_reader_drops_empty_rows", "json_reader_table_form", "to_json_table_form"):
+        out.append(f"Definition {name} : bool := {coq_bool(flags[name])}.")
+    notes.append("csv_reader_drops_empty_rows / json_reader_drops_empty_rows / json_reader_table_form / to_json_table_form = "
+                 + " / ".join(str(flags[n]) for n in ("csv_reader_drops_empty_rows", "json_reader_drops_empty_rows",
+                                                       "json_reader_table_form", "to_json_table_form"))
+                 + ": PROBED on CSVSheetReader, JSONSheetReader and converters.to_json (rows of empty cells in first / middle / "
+                 "last position and alone, widths 1-3; the object form {headers, rows} with and without rows; a sheet with "
+                 "headers and no rows through to_json); a reader that drops some all-empty rows and keeps others is refused")
     notes.append("load_csv_translated: TABULATED by running sheets.load_csv on a probe file with CR / CRLF inside quoted cells")
     notes.append("csv_*: dialect attributes of csv.reader([], delimiter=tablib CSVFormat.DEFAULT_DELIMITER).dialect; csv.field_size_limit()")
+
+
+def _view(t):
+    return (list(t.headers) if t.headers else None, [list(t[i]) for i in range(t.height)])
+
+
+def _kept_or_dropped(what, got, tables):
+    """got: {name: view}; tables: {name: (headers, rows)}.  'kept' = every table as given, 'dropped' = every table
+    without its all-empty rows; anything else is outside the model"""
+    kept = {n: (h, [list(r) for r in rows]) for n, (h, rows) in tables.items()}
+    dropped = {n: (h, [list(r) for r in rows if any(c != "" for c in r)]) for n, (h, rows) in tables.items()}
+    if kept == dropped:
+        raise Refuse(f"{what}: the probe has no all-empty row")
+    if got == kept:
+        return False
+    if got == dropped:
+        return True
+    raise Refuse(f"{what} neither keeps nor omits the rows without content: {got!r}")
+
+
+PROBE_TABLES = {
+    "p1": (["a", "b"], [["", ""], ["x", ""], ["", ""], ["", "y"], ["", ""]]),
+    "p2": (["a"], [["z"], [""]]),
+    "p3": (["a", "b", "c"], [["", "", ""]]),
+    "p4": (["h é"], [["0"], [" "], [""], ["None"]]),
+}
+
+
+def probe_reader_flags(sheets):
+    import csv as _csv
+    import io
+    import json
+
+    import tablib
+    from rpft import converters
+
+    tmp = tempfile.mkdtemp(prefix="c14flags")
+    try:
+        # ---- CSVSheetReader
+        d = os.path.join(tmp, "csv")
+        os.makedirs(d)
+        for n, (h, rows) in PROBE_TABLES.items():
+            s = io.StringIO(newline="")
+            w = _csv.writer(s)
+            for r in [h] + rows:
+                w.writerow(r)
+            with open(os.path.join(d, n + ".csv"), "w", newline="", encoding="utf-8") as f:
+                f.write(s.getvalue())
+        try:
+            got = {n: _view(sh.table) for n, sh in sheets.CSVSheetReader(d).sheets.items()}
+        except Exception as e:
+            raise Refuse(f"CSVSheetReader failed on the probe folder: {type(e).__name__}: {e}")
+        csv_drop = _kept_or_dropped("CSVSheetReader", got, PROBE_TABLES)
+
+        # ---- JSONSheetReader, list-of-objects and list-of-lists forms
+        def read_json(book_sheets):
+            p = os.path.join(tmp, "probe.json")
+            with open(p, "w", encoding="utf-8") as f:
+                json.dump({"meta": {"version": "0.1.0"}, "sheets": book_sheets}, f, ensure_ascii=False)
+            return {n: _view(sh.table) for n, sh in sheets.JSONSheetReader(p).sheets.items()}
+
+        try:
+            got = read_json({n: [dict(zip(h, r)) for r in rows] for n, (h, rows) in PROBE_TABLES.items()})
+        except Exception as e:
+            raise Refuse(f"JSONSheetReader failed on the probe file: {type(e).__name__}: {e}")
+        json_drop = _kept_or_dropped("JSONSheetReader", got, PROBE_TABLES)
+        lists = {"l1": (None, [["", ""], ["x", ""]]), "l2": (None, [["q"], [""], [""]])}
+        try:
+            got = read_json({n: rows for n, (_, rows) in lists.items()})
+        except Exception as e:
+            raise Refuse(f"JSONSheetReader failed on list-of-lists sheets: {type(e).__name__}: {e}")
+        if _kept_or_dropped("JSONSheetReader (list of lists)", got, lists) != json_drop:
+            raise Refuse("JSONSheetReader treats rows without content differently in the list-of-objects and list-of-lists forms")
+
+        # ---- JSONSheetReader, object form {"headers": [...], "rows": [[...]]}
+        verdicts = set()
+        forms = dict(PROBE_TABLES)
+        forms["h1"] = (["a", "b"], [])
+        forms["h2"] = (["only"], [])
+        for n, (h, rows) in forms.items():
+            try:
+                got = read_json({n: {"headers": h, "rows": rows}})
+            except Exception:
+                verdicts.add(False)
+                continue
+            want_rows = [list(r) for r in rows if any(c != "" for c in r)] if json_drop else [list(r) for r in rows]
+            if got != {n: (h, want_rows)}:
+                raise Refuse(f"JSONSheetReader reads the object form of {n} as {got!r}")
+            verdicts.add(True)
+        if len(verdicts) != 1:
+            raise Refuse("JSONSheetReader accepts the object form {headers, rows} for some sheets only")
+        json_table = verdicts.pop()
+
+        # ---- converters.to_json
+        class Reader(sheets.AbstractSheetReader):
+            def __init__(self, sh):
+                self._sheets = sh
+
+        def ds(h, rows):
+            t = tablib.Dataset()
+            if h:
+                t.headers = list(h)
+            for r in rows:
+                t.append(list(r))
+            return t
+
+        book = dict(PROBE_TABLES)
+        book["h1"] = (["a", "b"], [])
+        book["h2"] = (["only"], [])
+        book["e"] = (None, [])
+        book["l"] = (None, [["x", "y"]])
+        try:
+            txt = converters.to_json(Reader({n: sheets.Sheet(reader=None, name=n, table=ds(h, rows)) for n, (h, rows) in book.items()}))
+            parsed = json.loads(txt)["sheets"]
+        except Exception as e:
+            raise Refuse(f"converters.to_json failed on the probe workbook: {type(e).__name__}: {e}")
+        for n, (h, rows) in book.items():
+            if h and rows and parsed.get(n) != [dict(zip(h, r)) for r in rows]:
+                raise Refuse(f"to_json writes sheet {n} as {parsed.get(n)!r}")
+        if parsed.get("e") != [] or parsed.get("l") != [["x", "y"]]:
+            raise Refuse(f"to_json writes header-less sheets as {parsed.get('e')!r} / {parsed.get('l')!r}")
+        hv = set()
+        for n in ("h1", "h2"):
+            if parsed.get(n) == []:
+                hv.add(False)
+            elif parsed.get(n) == {"headers": book[n][0], "rows": []}:
+                hv.add(True)
+            else:
+                raise Refuse(f"to_json writes the header-only sheet {n} as {parsed.get(n)!r}")
+        if len(hv) != 1:
+            raise Refuse("to_json writes some header-only sheets in the object form and others not")
+        tojson_table = hv.pop()
+    finally:
+        shutil.rmtree(tmp, ignore_errors=True)
+    return dict(csv_reader_drops_empty_rows=csv_drop, json_reader_drops_empty_rows=json_drop,
+                json_reader_table_form=json_table, to_json_table_form=tojson_table)
 
 
 GENERATORS = [tables_c14]
